@@ -10,9 +10,11 @@ MAP = [
     ("src/cell.rs", ["C14", "C01", "C02", "C08", "C04"]),
     ("src/transform.rs", ["C15", "C14", "C17", "C11", "C12"]),
     ("src/site.rs", ["C15", "C04", "C08"]),
-    ("src/state/", ["C01", "C02", "C03", "C08", "C10"]),
+    ("src/state/", ["C01", "C02", "C03", "C08", "C10", "C11"]),
     ("src/shape/", ["C12", "C13", "C02", "C01", "C03"]),
     ("src/wallpaper.rs", ["C16", "C10"]),
+    ("src/main.rs", ["C10", "C20"]),
+    ("src/to_svg.rs", ["C11"]),
 ]
 for item in sys.argv[3:]:
     R_, i = item.split("/")
